@@ -53,6 +53,10 @@ CHECKS = {
           "Each mutant is loaded with dmntk_model::parse, built with ModelEvaluator::new and every decision, knowledge model and decision service it declares is invoked with three input contexts, in a worker process that announces the case index in a memory-mapped file before running it under catch_unwind; a worker that panics, dies by a signal or abort (stack overflow), or makes no progress within the stall limit is attributed to that case and restarted behind it. Verdict: no mutant crashes or hangs, in either profile.",
           "Values are not judged. Faults beyond pairs on large models, and multi-byte corruptions, are outside the bound; the stall limit is 10 s (quick) / 30 s (thorough); worker address space is limited to 4 GiB; the main-thread stack is the default 8 MiB. A model whose unmutated text already crashes (listed finding N_0088) is reported once and not mutated.",
           "DESIGN.md §4 C12"),
+  "C19": ("bounded exhaustive enumeration through a renderer that is the inverse of the recogniser (drawing.rs; calibrated at every run: each shipped valid drawing is recognised, re-rendered from the recognised table and recognised again): source tables with inputs 1..3 (thorough 1..5) x outputs 1..3 x annotations 0..2 x rule counts {1,2,4} (thorough 1..8) x 11 hit policy markers x both orientations x information item name x values row x output label x 9 cell-line patterns (single line; a two-line cell in each of the 8 cell classes) x 4 drawing styles (column widths; name box ending inside a cell, on a column boundary, at the right edge; merged or separate hit policy cell); plus, crash-isolated in two build profiles, every single-character corruption (delete, swap with next, replace by each of 16 characters incl. 13 box-drawing characters) at every position of 14 (quick) / 124 (thorough) drawings",
+          "Each drawing goes through dmntk_recognizer::build and the resulting DecisionTable is compared field by field with the source (hit policy, aggregator, orientation, information item name, input expressions and values, output label, names and values, annotations, every rule entry in order; cell texts modulo white space). The recognised table, the table built from the source struct and the table loaded from generated DMN XML are evaluated on every presence/value assignment of the inputs and must agree. A corrupted drawing must be recognised or rejected: a panic, death or hang of the worker is attributed to the case.",
+          "Trusts the renderer's reading of the drawing conventions (bound to the shipped drawings by the calibration step). Cell texts contain no box-drawing characters. Crosstab drawings are not supported by the code base and are outside the property. Corruptions of more than one character are outside the bound.",
+          "DESIGN.md §4 C19"),
   "C14": ("exhaustive enumeration of literal lattices (every day incl. impossible days of 16-22 boundary years; every second of the day x fraction-digit counts x digit patterns; every whole-minute offset -14:59..+14:59 x seconds variants and the first rejected hours; every zone identifier of the zone database; date-time products; duration component products; every single-character corruption of valid literals) against a reference literal grammar and printer",
           "Each literal is read through four paths (date()/time()/date and time()/duration(), the @-literal, the TryFrom/FromStr API, the xsd input conversion). A literal the reference grammar accepts must be accepted on every path, print as the reference's canonical text, expose the written components, and string(v) must read back as an equal value; a literal the grammar rejects must be null on every path. Failures are attributed to the single feature (year, fraction, zone, offset) whose neutralisation makes the literal behave.",
           "Trusts reftime.rs (no chrono, no floating point). Year 0000, offset minutes above 59, more than nine fraction digits and `PT1.S` (pinned as valid by the repository's tests) are left unspecified. Times of day in named zones are only checked for acceptance and printing.",
